@@ -33,5 +33,15 @@ CORPUS = [
     Mut('c14-elbo-flags-swapped-positionally', 'torchtree/variational/kl.py', '', "        obj = _from_json(cls, data, dic)\n        obj.entropy = data.get('entropy', False)\n        obj.score = data.get('score', False)\n        return obj",
         "        samples = data.get('samples', 1)\n        return cls(data['id'], process_object(data['variational'], dic), process_object(data['joint'], dic), samples, data.get('score', False), data.get('entropy', False))",
         expect=[('C14.O', 'ELBO::positional')], mode='text'),
+    Mut('c14-klpq-weights-normalised-outside-log-space', 'torchtree/variational/kl.py', '', "        log_w_norm = log_w - torch.logsumexp(log_w, -1)\n        return torch.sum(log_w_norm.exp() * log_w)\n",
+        "        w = log_w.exp()\n        w_norm = w / w.sum(-1, keepdim=True)\n        return torch.sum(w_norm * log_w, -1)\n", expect=[('C14.T', 'exp-of-unshifted-log-weights')], mode='text'),
+    Mut('c14-container-name-clash-checked-in-one-registry', 'torchtree/core/container.py', '', "        while hasattr(self, unique_id):\n", "        registered = self._parameters if isinstance(obj, AbstractParameter) else self._models\n        while unique_id in registered:\n",
+        expect=[('C14.C', 'Container._unique_id::name-unused-by-any-component')], mode='text'),
+    Mut('c14-benign-container-name-clash-checked-in-both-registries', 'torchtree/core/container.py', '', "        while hasattr(self, unique_id):\n", "        while unique_id in self._parameters or unique_id in self._models or hasattr(self, unique_id):\n",
+        benign=True, mode='text'),
+    Mut('c14-mvn-closed-form-entropy-precision-sign', 'torchtree/distributions/multivariate_normal.py', '', "        kwargs = {self.parameterization: self.parameter.tensor}\n        return torch.distributions.MultivariateNormal(\n            self.loc.tensor, **kwargs\n        ).entropy()\n", "        if self.parameterization == 'scale_tril':\n            half_log_det = self.parameter.tensor.diagonal(dim1=-2, dim2=-1).log().sum(-1)\n        elif self.parameterization == 'covariance_matrix':\n            half_log_det = 0.5 * torch.linalg.slogdet(self.parameter.tensor)[1]\n        else:\n            half_log_det = 0.5 * torch.linalg.slogdet(self.parameter.tensor)[1]\n        dim = self.loc.shape[-1]\n        return 0.5 * dim * (1.0 + math.log(2.0 * math.pi)) + half_log_det\n", expect=[('C14.C', 'MultivariateNormal.entropy::entropy-of-the-distribution-log_prob-evaluates::precision_matrix')], mode='text',
+        more=[dict(scope='', old="from typing import Union\n", new="import math\nfrom typing import Union\n", mode='text')]),
+    Mut('c14-benign-mvn-closed-form-entropy', 'torchtree/distributions/multivariate_normal.py', '', "        kwargs = {self.parameterization: self.parameter.tensor}\n        return torch.distributions.MultivariateNormal(\n            self.loc.tensor, **kwargs\n        ).entropy()\n", "        if self.parameterization == 'scale_tril':\n            half_log_det = self.parameter.tensor.diagonal(dim1=-2, dim2=-1).log().sum(-1)\n        elif self.parameterization == 'covariance_matrix':\n            half_log_det = 0.5 * torch.linalg.slogdet(self.parameter.tensor)[1]\n        else:\n            half_log_det = -0.5 * torch.linalg.slogdet(self.parameter.tensor)[1]\n        dim = self.loc.shape[-1]\n        return 0.5 * dim * (1.0 + math.log(2.0 * math.pi)) + half_log_det\n", benign=True, mode='text',
+        more=[dict(scope='', old="from typing import Union\n", new="import math\nfrom typing import Union\n", mode='text')]),
 ]
 CORPUS = [m for m in CORPUS if m.id != 'c14-iwae-wrong-axis-size']
